@@ -232,8 +232,12 @@ structure Reified where
   refs : List Text
   deriving DecidableEq, Repr
 
-/-- `if obj.ref in refs_set: diagnostics.append(RefAlreadyExists(...))` -/
+/-- `if obj.ref and obj.ref in refs_set: diagnostics.append(RefAlreadyExists(...))`: entries without a ref do not share one
+(the code before the repair also compared the empty ref: `dupDiagOld`) -/
 def dupDiag (refs : List Text) (r : Text) : List Diag :=
+  if r ≠ [] ∧ r ∈ refs then [.refAlreadyExists r] else []
+
+def dupDiagOld (refs : List Text) (r : Text) : List Diag :=
   if r ∈ refs then [.refAlreadyExists r] else []
 
 /-- `elif obj.ref is not None: refs_set.add(obj.ref)` -/
